@@ -189,7 +189,7 @@ def fam_tree(sess):
                     seen.setdefault(key, ('ok', '', ref)); st['ok'] += 1
                 else:
                     seen[key] = ('viol', 'parsed as %s, textbook %s' % (show(got), show(ref)), ref)
-        ex.explore(run, on_path, time_budget=240 if sess.tier == 'quick' else 1500)
+        ex.explore(run, on_path, time_budget=480 if sess.tier == 'quick' else 1500)
     bad = {k: v for k, v in seen.items() if v[0] == 'viol'}
     shapes = {}
     for k, v in bad.items():
